@@ -201,5 +201,8 @@ example : (performStep reversal (fun _ => 1/3) 2 [0, 1, 2] 1).map (·.qubits) =
     [[0, 1, 2], [2, 1, 0], [0, 1, 2], [2, 1, 0], [0, 1, 2]] := by decide +kernel
 example : (simulate reversal (fun _ => 1/3) 2 3 [0, 1, 2] 1).2 = [2, 1, 0] := by decide +kernel
 example : ∀ q : List Nat, reversal (reversal q) = q := by intro q; simp [reversal]
+/-- symmetric coefficient tables exist (hypotheses of the product-formula theorems) -/
+example : ∀ p q : Nat, (fun a b : Nat => ((a + b : Nat) : Rat)) p q = (fun a b : Nat => ((a + b : Nat) : Rat)) q p := by
+  intro p q; simp [Nat.add_comm]
 
 end OFV.C15
